@@ -112,11 +112,12 @@ impl UsesLifetimes for Lifetime {
 }
 
 uses_lifetimes!(syn::AngleBracketedGenericArguments, args);
-uses_lifetimes!(syn::AssocType, ty);
+uses_lifetimes!(syn::AssocConst, generics);
+uses_lifetimes!(syn::AssocType, generics, ty);
 uses_lifetimes!(syn::BareFnArg, ty);
 uses_lifetimes!(syn::BoundLifetimes, lifetimes);
 uses_lifetimes!(syn::ConstParam, ty);
-uses_lifetimes!(syn::Constraint, bounds);
+uses_lifetimes!(syn::Constraint, generics, bounds);
 uses_lifetimes!(syn::DataEnum, variants);
 uses_lifetimes!(syn::DataStruct, fields);
 uses_lifetimes!(syn::DataUnion, fields);
@@ -264,9 +265,9 @@ impl UsesLifetimes for syn::GenericArgument {
             syn::GenericArgument::AssocType(ref v) => v.uses_lifetimes(options, lifetimes),
             syn::GenericArgument::Lifetime(ref v) => v.uses_lifetimes(options, lifetimes),
             syn::GenericArgument::Constraint(ref v) => v.uses_lifetimes(options, lifetimes),
-            syn::GenericArgument::AssocConst(_) | syn::GenericArgument::Const(_) => {
-                Default::default()
-            }
+            // the value is a const expression, the generic arguments of the name are not
+            syn::GenericArgument::AssocConst(ref v) => v.uses_lifetimes(options, lifetimes),
+            syn::GenericArgument::Const(_) => Default::default(),
             // non-exhaustive enum
             // TODO: replace panic with failible function
             _ => panic!("Unknown syn::GenericArgument: {:?}", self),
